@@ -27,3 +27,11 @@ add("C07", "step_consistent / conserved theorems per modelled grid or game envir
            "non-terminal implementation state under legal, random and adversarial play", _note)
 add("C09", "refinement theorems L1 (transliteration) = L2 (readable rules) per modelled environment, e.g. the 2048 row loop = "
            "compress/merge/pad for rows of any length; every visited and synthetic transition replayed on the model", _note)
+
+_wnote = ("Trusted: Lean kernel; the wrapper model is a transliteration of wrappers.py over an abstract environment and free PRNG keys "
+          "(threefry collisions outside the model); tied to /repo by running the real wrappers on the real environments side by side with "
+          "env.step / env.reset(split(key)[0]) and letting the model decide which pytree each output field must equal.")
+add("C13", "step_not_last, step_last(+fields), next_obs_step/reset, fresh_keys (strictly deepening reset keys along ANY action sequence, for any "
+           "key-monotone environment) proved over an arbitrary Env; real AutoResetWrapper on all 22 environment classes, both flags, multi-episode, jit/scan/vmap", _wnote)
+add("C14", "vmap_step_get/reset_get and VmapAutoReset = Vmap(AutoReset) for every batch proved over an arbitrary Env; both real stacks on identical "
+           "batches with staggered terminations, index-wise vs single-instance execution, render uses element 0", _wnote)
